@@ -422,7 +422,7 @@ def toy_traces(chk, curve, kind, n, flags, what, cfgname="Trace", name=None, pro
     return progs, sums, rej
 
 
-def validate_aux(chk, trace_file, curve, jobs=12, timeout=1500, what="aux"):
+def validate_aux(chk, trace_file, curve, jobs=12, timeout=1500, what="aux", env=None):
     """Validate a stateless-component trace (TraceAux.tla): events are independent, so a rejected event is cut out and the
     rest validated again. Returns (events_accepted, rejected_events)."""
     events = read_ndjson(trace_file)
@@ -442,7 +442,7 @@ def validate_aux(chk, trace_file, curve, jobs=12, timeout=1500, what="aux"):
 
         def one(a):
             path, curve_, flags_, metadir, to, cfgname = a
-            return tlc("TraceAux.tla", "%s_%s.cfg" % (cfgname, curve_), metadir, workers=1, env={"TRACE": path}, timeout=to)
+            return tlc("TraceAux.tla", "%s_%s.cfg" % (cfgname, curve_), metadir, workers=1, env=dict(env or {}, TRACE=path), timeout=to)
 
         with cf.ThreadPoolExecutor(max_workers=jobs) as ex:
             results = list(ex.map(one, args))
